@@ -55,12 +55,28 @@ def blockEndOf : Ending → BlockEnd
   | .crashAfterStartup _ => .raised .cancelled
   | _ => .ret
 
+/-- A teardown callback registered on the root context by a component: its id, whether it asked
+for the exception, and the callbacks it registers itself when it runs (clean-up that is only
+known at shutdown, e.g. closing what a lazily created resource opened). -/
+structure RegSpec where
+  id : Nat
+  pass : Bool
+  late : List (Nat × Bool)
+  deriving Repr
+
 structure RunCase where
-  regs : List (Nat × Bool)      -- teardown callbacks registered on the root context: (id, pass_exception)
+  regs : List RegSpec           -- in registration order
   ending : Ending
   deriving Repr
 
-def regCb (r : Nat × Bool) : Cb := .mk r.1 r.2 false [] [] none
+def lateCb (r : Nat × Bool) : Cb := .mk r.1 r.2 false [] [] none
+
+def regCb (r : RegSpec) : Cb := .mk r.id r.pass false [] (r.late.map lateCb) none
+
+/-- The order in which everything registered must run: last registered first; what a callback
+registers while running comes right after it, again last registered first. -/
+def expectedOrder (regs : List RegSpec) : List (Nat × Bool) :=
+  regs.reverse.flatMap fun r => (r.id, r.pass) :: r.late.reverse
 
 /-- The root context's life inside run_application, as kernel operations. -/
 def runOps (c : RunCase) : List Op :=
